@@ -291,6 +291,51 @@ def wrapper(inner, name=None):
     return t.shaped("wrap_lb" if isinstance(inner, LBuf) else "wrap", [inner.elem] if isinstance(inner, LBuf) else [inner], inner=inner)
 
 
+UB_CAPACITY = 1024
+
+
+def ubuf(elem, size_ty, name, lead=(), form="structure"):
+    """NOP_UNBOUNDED_BUFFER structure: optional leading (trivial) members, then the size member and a one-element array that is
+    the head of caller-allocated storage (the caller vouches for the capacity; here UB_CAPACITY elements, values are clipped to it).
+    form: "value" (NOP_VALUE, no leading members), "structure" (NOP_STRUCTURE), "external" (NOP_EXTERNAL_STRUCTURE + NOP_EXTERNAL_UNBOUNDED_BUFFER)."""
+    nm = name
+    lines, args, sch, tov, frm, kids, descs = [], [], [], [], [], [], []
+    for i, t in enumerate(lead):
+        f = "m%d" % i
+        lines.append("  %s %s;" % (t.cpp, f)); args.append(f)
+        sch.append("SchemaOf<decltype(%s::%s)>()" % (nm, f)); tov.append("ToVal(x.%s)" % f); frm.append("FromVal(v.kids[%d], &x->%s);" % (i, f))
+        kids.append(t); descs.append(t.name)
+    lines.append("  %s n;" % size_ty.cpp)
+    lines.append("  %s a[1];" % elem.cpp)
+    kids.append(elem)
+    descs.append("(%s[],%s)" % (elem.name, size_ty.name))
+    ubsch = "seq_schema<%s>(Len::VAR, 0)" % elem.cpp
+    ubto = "seq_to<%s>(&x.a[0], &x.a[0] + (size_t)x.n, IsInt<%s>{})" % (elem.cpp, elem.cpp)
+    ubfrom = ("{ const Val& sv = %%s; size_t c = seq_count<%s>(sv); if (c > %d) c = %d; %s* e = &x->a[0]; for (size_t i = 0; i < c; i++) seq_get<%s>(sv, i, e + i, IsInt<%s>{}); x->n = (%s)c; }"
+              % (elem.cpp, UB_CAPACITY, UB_CAPACITY, elem.cpp, elem.cpp, elem.cpp, size_ty.cpp))
+    if form == "value":
+        assert not lead
+        text = "struct %s {\n%s\n  NOP_VALUE(%s, (a, n));\n  NOP_UNBOUNDED_BUFFER(%s);\n};" % (nm, "\n".join(lines), nm, nm)
+        reflect = ("template <> struct Reflect<%s> {\n  static Sch schema() { return %s; }\n  static Val to(const %s& x) { return %s; }\n"
+                   "  static void from(const Val& v, %s* x) %s\n};") % (nm, ubsch, nm, ubto, nm, ubfrom % "v")
+    else:
+        allargs = ", ".join(args + ["(a, n)"])
+        if form == "external":
+            text = "struct %s {\n%s\n};\nNOP_EXTERNAL_STRUCTURE(%s, %s);\nNOP_EXTERNAL_UNBOUNDED_BUFFER(%s);" % (nm, "\n".join(lines), nm, allargs, nm)
+        else:
+            text = "struct %s {\n%s\n  NOP_STRUCTURE(%s, %s);\n  NOP_UNBOUNDED_BUFFER(%s);\n};" % (nm, "\n".join(lines), nm, allargs, nm)
+        reflect = ("template <> struct Reflect<%s> {\n  static Sch schema() { Sch s{K::STU}; s.kids = {%s}; s.name = \"%s\"; return s; }\n"
+                   "  static Val to(const %s& x) { Val v; v.kids = {%s}; return v; }\n  static void from(const Val& v, %s* x) { %s %s }\n};") % (
+            nm, ", ".join(sch + [ubsch]), nm, nm, ", ".join(tov + [ubto]), nm, " ".join(frm), ubfrom % ("v.kids[%d]" % len(lead)))
+    # storage: header + UB_CAPACITY elements, zero-initialised, owned by the holder
+    holder = ("template <> struct Holder<%s> {\n  %s* p;\n  Holder() : p(static_cast<%s*>(std::calloc(1, offsetof(%s, a) + %d * sizeof(%s)))) {}\n"
+              "  Holder(const Holder&) = delete;\n  ~Holder() { std::free(p); }\n  %s& get() { return *p; }\n  const %s& get() const { return *p; }\n};") % (
+        nm, nm, nm, nm, UB_CAPACITY, elem.cpp, nm, nm)
+    t = _merge(nm, "%s{%s}" % (nm, ";".join(descs)), kids, F_UNBOUNDED | _elem_flags(elem))
+    t.decls.append(Decl(nm, text, reflect + "\n" + holder))
+    return t.shaped("ubuf", kids, form=form)
+
+
 def table(entries, name=None, hash_kind=("hash", 0)):
     """entries: list of (Ty, id, active). hash_kind: ("hash", n) | ("ns", "name") | ("plain",)"""
     nm = name or _fresh("T")
@@ -369,6 +414,12 @@ def curated():
     A(struct([LBuf(P("i32"), 1, P("size_t"))], "LBi32x1"))
     A(wrapper(P("u32"), "Wu32")); A(wrapper(vec(s1), "WvecS1")); A(wrapper(LBuf(P("u16"), 9, P("u8")), "WLB")); A(vec(wrapper(P("string"), "Wstr")))
     A(struct([Member(handle()), Member(P("string")), Member(vec(handle()))], "SHnd"))
+    # unbounded logical buffers (round trip / format / truncation / size / fault checks only; C02 and C04 exclude them as stated)
+    tri = struct([Member(P("float")), Member(P("i16"))], "STri")
+    A(ubuf(P("u32"), P("size_t"), "UBu32_szt", form="value"))
+    A(ubuf(P("u8"), P("u16"), "UBu8_u16", lead=[P("u8")]))
+    A(ubuf(tri, P("u32"), "UBTri_u32", lead=[P("i32"), enum("u8")]))
+    A(ubuf(P("i64"), P("int"), "UBi64_int", lead=[P("u16")], form="external"))
     # tables
     t1 = table([(s1, 0, True), (vec(P("string")), 3, True), (P("int"), 7, False), (mp(P("u8"), enum("i32")), 300, True)], "T1", ("ns", "verif.T1")); A(t1)
     t1r = table([(s1, 0, True), (P("int"), 7, False), (mp(P("u8"), enum("i32")), 300, False), (P("string"), 9, True)], "T1_R", ("ns", "verif.T1")); A(t1r)   # reader-side version of T1: skips entries 3 and 300
@@ -455,6 +506,8 @@ def random_corpus(seed, n, depth=3):
 
 # ---------------------------------------------------------------- emission
 HEADER = """// generated by gen/typegen.py -- do not edit
+#include <cstddef>
+#include <cstdlib>
 #include <limits>
 #include "vlib/ops.h"
 #include "vlib/tagpolicy.h"
@@ -479,9 +532,14 @@ def emit_tus(outdir, types, per_tu=6, prefix="types"):
     H.append("}  // namespace vf")
     _write(os.path.join(outdir, prefix + "_decls.h"), "\n".join(H) + "\n")
     srcs = []
+    # translation units instantiating NOP_UNBOUNDED_BUFFER types are compiled without UBSan's array-bounds check: the library's documented
+    # flexible-array idiom (T data[1] heading caller-allocated storage) indexes the one-element array by design (DESIGN.md 9.6)
+    types = [t for t in types if not (t.flags & F_UNBOUNDED)] + [None] * ((-len([t for t in types if not (t.flags & F_UNBOUNDED)])) % per_tu) + [t for t in types if t.flags & F_UNBOUNDED]
     for i in range(0, len(types), per_tu):
-        chunk = types[i:i + per_tu]
-        L = ['#include "%s_decls.h"' % prefix, "namespace {"]
+        chunk = [t for t in types[i:i + per_tu] if t is not None]
+        if not chunk:
+            continue
+        L = (["// VF-FLAGS(asan,fuzz): -fno-sanitize=bounds"] if chunk[0].flags & F_UNBOUNDED else []) + ['#include "%s_decls.h"' % prefix, "namespace {"]
         for j, t in enumerate(chunk):
             L.append("using CT%d = %s;" % (j, t.cpp))
             L.append('static vf::Registrar reg%d(vf::MakeOps<CT%d, %du>(%s, %s));' % (j, j, t.flags, _cq(t.name), _cq(t.cpp)))
